@@ -561,7 +561,7 @@ func verifH_C04_conforming_variants() {
 	verifReach("end")
 }
 
-//verif:harness id=C04 tier=quick,thorough witness=end bounds="examples are read in the direction of the place they stand in, whatever options are passed: a request body example carrying a read-only property, a response example carrying a write-only property, and the two harmless opposites (write-only in a request, read-only in a response) x every subset of {DisableExamplesValidation, DisableSchemaDefaultsValidation, DisableSchemaPatternValidation, EnableSchemaFormatValidation} incl. the empty one: the two violations are rejected exactly when example validation is on, the harmless ones always accepted"
+//verif:harness id=C04 tier=quick,thorough witness=end bounds="examples are read in the direction of the place they stand in, whatever options are passed: a request body example carrying a read-only property, a response example carrying a write-only property, and the two harmless opposites (write-only in a request, read-only in a response) x every subset of {DisableExamplesValidation, DisableSchemaDefaultsValidation, DisableSchemaPatternValidation, EnableSchemaFormatValidation} incl. the empty one: the two violations are rejected exactly when example validation is on, the harmless ones always accepted; optionally further harmless examples at positions validated after a response (path-item parameters by schema / examples / content, a later path): the direction of one position does not leak to the next"
 func verifH_C04_example_direction() {
 	which := verifChoose("which", 4)
 	reqEx, respEx := `{"n":1}`, `{"n":1}`
@@ -576,8 +576,19 @@ func verifH_C04_example_direction() {
 		respEx = `{"n":1,"ro":2}`
 	}
 	schema := `{"type":"object","properties":{"n":{"type":"integer"},"ro":{"type":"integer","readOnly":true},"wo":{"type":"integer","writeOnly":true}}}`
-	text := `{"openapi":"3.0.0","info":{"title":"t","version":"1"},"paths":{"/a":{"post":{"requestBody":{"content":{"application/json":{"schema":` + schema + `,"example":` + reqEx + `}}},` +
-		`"responses":{"200":{"description":"d","content":{"application/json":{"schema":` + schema + `,"example":` + respEx + `}}}}}}}}`
+	// further, harmless examples at positions that are validated after a response: the direction of one
+	// position must not stay switched on for the next (parameters carry no direction of their own)
+	piParams, later := "", ""
+	switch verifChoose("after", 4) {
+	case 1:
+		piParams = `"parameters":[{"name":"cred","in":"query","schema":` + schema + `,"example":{"n":1,"wo":2}}],`
+	case 2:
+		later = `,"/b":{"post":{"requestBody":{"content":{"application/json":{"schema":` + schema + `,"example":{"n":1,"wo":2}}}},"responses":{"200":{"description":"d","content":{"application/json":{"schema":` + schema + `,"example":{"n":1,"ro":2}}}}}}}`
+	case 3:
+		piParams = `"parameters":[{"name":"cred","in":"query","schema":` + schema + `,"examples":{"e":{"value":{"n":1,"wo":2}}}},{"name":"X-C","in":"header","content":{"application/json":{"schema":` + schema + `,"example":{"n":1,"wo":2}}}}],`
+	}
+	text := `{"openapi":"3.0.0","info":{"title":"t","version":"1"},"paths":{"/a":{` + piParams + `"post":{"requestBody":{"content":{"application/json":{"schema":` + schema + `,"example":` + reqEx + `}}},` +
+		`"responses":{"200":{"description":"d","content":{"application/json":{"schema":` + schema + `,"example":` + respEx + `}}}}}}` + later + `}}`
 	doc, err := NewLoader().LoadFromData([]byte(text))
 	if err != nil || doc == nil {
 		verifAssert(false, "C04 example direction: the document loads")
